@@ -150,11 +150,93 @@ fn main() {
             );
             std::fs::write(&out, serde_json::to_string_pretty(&j).unwrap()).expect("write result");
         }
+        "miri-slice" => {
+            let mut rep = report::Report::new();
+            match args.get(2).map(|s| s.as_str()) {
+                Some("C03") => props::c03::miri_slice(&mut rep),
+                _ => props::c01::miri_slice(&mut rep),
+            }
+            let ctx = mon::take_ctx();
+            if rep.violations_total == 0 && ctx.hits_total == 0 {
+                println!("miri-slice ok evaluations={}", rep.evaluations);
+            } else {
+                println!("miri-slice FAILED violations={} hits={}", rep.violations_total, ctx.hits_total);
+                std::process::exit(1);
+            }
+        }
+        "replay-history" => {
+            let text = std::fs::read_to_string(&args[2]).expect("read replay file");
+            let j: Value = serde_json::from_str(&text).expect("parse replay file");
+            std::process::exit(replay_history(&j));
+        }
         "alloc-audit" => {
             let n: u64 = args.get(2).and_then(|s| s.parse().ok()).unwrap_or(1000);
             let acc = props::c18::alloc_audit(n);
             println!("alloc-audit n={} checksum={} harness_counted_allocs={}", n, acc, mon::alloc_calls());
         }
         _ => usage(),
+    }
+}
+
+/// Re-executes a recorded history against the current tree under the same monitors and prints
+/// every event with the real outputs; exit 1 if any monitor fires again, 0 otherwise.
+fn replay_history(j: &Value) -> i32 {
+    let case = &j["case"];
+    let scanner = case["scanner"].as_str().unwrap_or("?").to_string();
+    let events: Vec<scan::Ev> = case["events"]
+        .as_array()
+        .map(|a| a.iter().filter_map(|e| e.as_str().and_then(scan::Ev::parse)).collect())
+        .unwrap_or_default();
+    let mut rep = report::Report::new();
+    println!("scanner={} timeout_ns={} events={}", scanner, case["timeout_ns"], events.len());
+    let mut sofar: Vec<String> = Vec::new();
+    match scanner.as_str() {
+        "cc14" => {
+            let mut m = scan::Cc14Mon::new();
+            for e in &events {
+                sofar.push(e.render());
+                let s2 = sofar.clone();
+                let o = m.apply(e, &mut rep, &|| s2.clone());
+                println!("  {:<12} -> {:?}", e.render(), o);
+            }
+        }
+        "pn" => {
+            let mut m = scan::PnMon::new();
+            for e in &events {
+                sofar.push(e.render());
+                let s2 = sofar.clone();
+                let o = m.apply(e, &mut rep, &|| s2.clone());
+                println!("  {:<12} -> {:?}", e.render(), o);
+            }
+        }
+        #[cfg(feature = "std")]
+        "polling" => {
+            let t = case["timeout_ns"].as_u64().unwrap_or(0);
+            let mut m = poll::PollMon::new(t);
+            for e in &events {
+                sofar.push(e.render());
+                let s2 = sofar.clone();
+                let o = m.apply(e, &mut rep, &|| s2.clone());
+                println!("  {:<12} (t={}) -> {:?}", e.render(), m.now, o);
+            }
+        }
+        _ => {
+            println!("no direct replay for scanner kind {}", scanner);
+            return 2;
+        }
+    }
+    let ctx = mon::take_ctx();
+    for v in &rep.violations {
+        println!("MONITOR FIRED: {} -- {}", v.sig, v.desc);
+    }
+    for h in &ctx.hits {
+        println!("MONITOR HIT: {:?} {} {}", h.kind, h.entry, h.detail);
+    }
+    println!("recorded signature: {}", j["signature"]);
+    if rep.violations.is_empty() && ctx.hits.is_empty() {
+        println!("no monitor fired on the current tree (the monitors that judge single events only; twin/transducer oracles are re-run by ./check replay)");
+        0
+    } else {
+        1
     }
 }
